@@ -146,7 +146,7 @@ func run(in Input) lib.Result {
 		if strings.HasPrefix(res.Err, "PANIC") {
 			crash = res.Err
 		}
-		hops = append(hops, stor.CoqHop(op, res, nil))
+		hops = append(hops, stor.CoqHop(op, res))
 		switch op.Kind {
 		case "put":
 			nput++
